@@ -68,9 +68,10 @@ Ltac step_cases HI Hs Hth :=
     destruct (nth_error l t) as [th|] eqn:Hth; [|discriminate Hs] end;
   let Hmu := fresh "Hmu" in
   pose proof (I_mu _ HI) as Hmu;
-  unfold step_thread, sec_resolve_start, sec_fulfil_proxy, sec_commit, sec_call_lock, sec_call_relock,
-    sec_call_finish, sec_after_res, sec_client, sec_call_start, sec_release_proxy, mu_free, call_done in Hs;
-  rewrite Hmu in Hs; cbn [negb v_late_fulfil v_unlock_on_hit fixed] in Hs;
+  unfold step_thread, sec_resolve_start, sec_fulfil_proxy, sec_commit, sec_close, sec_call_lock, sec_call_relock,
+    sec_call_finish, sec_after_res, sec_client, sec_call_start, sec_release_proxy, mu_free, call_done,
+    commit, close_done, commit_k in Hs;
+  rewrite Hmu in Hs; cbn [negb v_late_fulfil v_unlock_on_hit v_known_first fixed] in Hs;
   explode Hs; inversion Hs; subst; clear Hs.
 
 (* ---- N1: ongoingCalls counts the threads inside the PipelineCaller *)
@@ -129,6 +130,36 @@ Proof.
   all: try (exfalso; tauto).
   all: destruct (caller c); destruct (sig_open c); cbn [andb negb b2z] in *; try lia; try discriminate;
          try (exfalso; tauto); try (specialize (Hcs eq_refl); discriminate).
+Qed.
+
+(* ---- NL: the owner releases the result only after the resolution is signalled *)
+Definition NL (c : config) : Prop := done_open c = true -> res_alive c = true.
+
+Lemma NL_step : forall c t c', Inv c -> NL c -> step fixed c t = Some c' -> NL c'.
+Proof.
+  intros c t c' HI HN Hs. unfold NL in *.
+  step_cases HI Hs Hth; split_via; simpl; intros; try discriminate; try congruence; auto.
+Qed.
+
+(* ---- N6: exactly one thread is between "result known" and closing the signals *)
+Definition N6 (c : config) : Prop :=
+  countT in_postk (threads c) = b2z (negb (sig_open c) && done_open c).
+
+Lemma N6_step : forall c t c', Inv c -> NL c -> N6 c -> step fixed c t = Some c' -> N6 c'.
+Proof.
+  intros c t c' HI HL HN Hs. unfold N6, NL in *.
+  pose proof (I_caller_sig c HI) as Hcs. pose proof (I_done c HI) as Hdn.
+  step_cases HI Hs Hth.
+  all: pose proof (I_threads c HI t th Hth) as HT; unfold tinv in HT.
+  all: split_via; simpl; rewrite ?(countT_upd _ _ _ _ _ Hth); rewrite ?HN; unfold in_postk.
+  all: cbn [t_pc t_op goto finish enter_call].
+  all: repeat match goal with H : t_pc _ = _ |- _ => rewrite H in * end.
+  all: destruct (t_op th) eqn:Hop; cbn [postk_pc is_res_op andb negb] in *.
+  all: try (exfalso; tauto).
+  all: destruct (caller c) eqn:Ec; destruct (sig_open c) eqn:Es; destruct (done_open c) eqn:Ed;
+         cbn [andb negb b2z] in *; try lia; try discriminate;
+         try (exfalso; tauto); try (specialize (Hcs eq_refl); discriminate); try (specialize (Hdn eq_refl); discriminate);
+         try (rewrite (HL eq_refl) in *; discriminate).
 Qed.
 
 (* ---- NS: proxy handles in the slots refer to existing proxies *)
@@ -377,9 +408,10 @@ Proof.
       - exact (tinv2_mono c c' th0 Hm (HN _ _ H0')). }
   clear H0 t0 th0 Hm.
   pose proof (I_mu _ HI) as Hmu.
-  unfold step_thread, sec_resolve_start, sec_fulfil_proxy, sec_commit, sec_call_lock, sec_call_relock,
-    sec_call_finish, sec_after_res, sec_client, sec_call_start, sec_release_proxy, mu_free, call_done in Hs.
-  rewrite Hmu in Hs. cbn [negb v_late_fulfil v_unlock_on_hit fixed] in Hs.
+  unfold step_thread, sec_resolve_start, sec_fulfil_proxy, sec_commit, sec_close, sec_call_lock, sec_call_relock,
+    sec_call_finish, sec_after_res, sec_client, sec_call_start, sec_release_proxy, mu_free, call_done,
+    commit, close_done, commit_k in Hs.
+  rewrite Hmu in Hs. cbn [negb v_late_fulfil v_unlock_on_hit v_known_first fixed] in Hs.
   explode Hs; inversion Hs; subst; clear Hs; split_via.
   all: eexists; split; [simpl; reflexivity|].
   all: unfold tinv2; cbn [t_pc goto finish enter_call];
@@ -406,7 +438,7 @@ Qed.
 (* ---------------------------------------------------------------- all clauses together *)
 
 Record Inv2 (c : config) : Prop := {
-  J1 : N1 c; J2 : N2 c; J3 : N3 c; JS : NS c; J4 : N4 c; J5 : N5 c; JA : NA c; JV : TV c; JT : NT c
+  J1 : N1 c; J2 : N2 c; J3 : N3 c; JL : NL c; J6 : N6 c; JS : NS c; J4 : N4 c; J5 : N5 c; JA : NA c; JV : TV c; JT : NT c
 }.
 
 Lemma init_inv2 : forall ops, Inv2 (init ops).
@@ -415,6 +447,8 @@ Proof.
   - unfold N1. simpl. rewrite countT_map_init; auto.
   - unfold N2. simpl. discriminate.
   - unfold N3. simpl. rewrite countT_map_init; auto. intros o. unfold in_precommit. simpl. apply andb_false_r.
+  - unfold NL. simpl. auto.
+  - unfold N6. simpl. rewrite countT_map_init; auto. intros o. unfold in_postk. simpl. apply andb_false_r.
   - intros s x [].
   - split; simpl.
     + intros x px H. destruct x; discriminate.
@@ -428,10 +462,12 @@ Qed.
 
 Lemma step_inv2 : forall c t c', Inv c -> Inv2 c -> step fixed c t = Some c' -> Inv2 c'.
 Proof.
-  intros c t c' HI [H1 H2 H3 HS H4 H5 HA HV HT] Hs. constructor.
+  intros c t c' HI [H1 H2 H3 HL H6 HS H4 H5 HA HV HT] Hs. constructor.
   - eapply N1_step; eauto.
   - eapply N2_step; eauto.
   - eapply N3_step; eauto.
+  - eapply NL_step; eauto.
+  - eapply N6_step; eauto.
   - eapply NS_step; eauto.
   - eapply N4_step; eauto.
   - eapply N5_step; eauto.
@@ -458,18 +494,19 @@ Ltac explode_none Hs :=
 Lemma disabled_cases : forall c t th,
   Inv c -> nth_error (threads c) t = Some th -> step_thread fixed c t th = None ->
   t_pc th = PDone \/
-  (t_pc th = PStart /\ (t_op th = OWait \/ t_op th = ORelease) /\ sig_open c = true) \/
+  (t_pc th = PStart /\ (t_op th = OWait \/ t_op th = ORelease \/ t_op th = OConsume) /\ done_open c = true) \/
   (t_pc th = PInCaller /\ op_gated (t_op th) = true /\ mem_nat t (gates c) = false) \/
-  (t_pc th = PWaitRes /\ sig_open c = true) \/
+  (t_pc th = PWaitRes /\ ((exists p s, t_op th = OClient p s) /\ done_open c = true \/
+                         (forall p s, t_op th <> OClient p s) /\ sig_open c = true)) \/
   (t_pc th = PStopWait /\ is_res_op (t_op th) = true /\ stopped c <> CClosed) \/
   (exists x rest, (t_pc th = PFulWait x rest \/ t_pc th = PRelWait x rest) /\
                   px_done (get_px c x) = false /\ sig_open c = false).
 Proof.
   intros c t th HI Hth Hs.
   pose proof (I_mu _ HI) as Hmu. pose proof (I_threads c HI t th Hth) as HT. unfold tinv in HT.
-  unfold step_thread, sec_resolve_start, sec_fulfil_proxy, sec_commit, sec_call_lock, sec_call_relock,
+  unfold step_thread, sec_resolve_start, sec_fulfil_proxy, sec_commit, sec_close, sec_call_lock, sec_call_relock,
     sec_call_finish, sec_after_res, sec_client, sec_call_start, sec_release_proxy, mu_free, call_done in Hs.
-  rewrite Hmu in Hs. cbn [negb v_late_fulfil v_unlock_on_hit fixed] in Hs.
+  rewrite Hmu in Hs. cbn [negb v_late_fulfil v_unlock_on_hit v_known_first fixed] in Hs.
   explode_none Hs.
   all: repeat match goal with H : t_pc _ = _ |- _ => rewrite H in HT end.
   all: repeat match goal with H : t_op _ = _ |- _ => rewrite H in HT end.
@@ -478,9 +515,174 @@ Proof.
   all: try (right; left; repeat split; auto; fail).
   all: try (right; right; left; apply orb_false_iff in Heqb; destruct Heqb as [Hg Hm];
             apply negb_false_iff in Hg; repeat split; auto; fail).
-  all: try (right; right; right; left; split; auto; fail).
+  all: try (match goal with H : (match t_op ?th0 with _ => _ end) = true |- _ => destruct (t_op th0) eqn:? end).
+  all: try (exfalso; tauto).
+  all: try (right; right; right; left; split; auto; left; split; eauto; fail).
+  all: try (right; right; right; left; split; auto; right; split; [intros; discriminate|auto]; fail).
   all: try (right; right; right; right; left; repeat split; auto;
             [destruct (t_op th); try (exfalso; tauto); reflexivity | congruence]; fail).
   all: right; right; right; right; right; do 2 eexists; split; [eauto|]; split; auto;
        destruct (t_op th); try (exfalso; tauto); tauto.
 Qed.
+
+(* ---------------------------------------------------------------- deadlock freedom *)
+
+Definition all_disabled (c : config) : Prop := forall t, enabled fixed c t = false.
+
+Definition at_incaller (th : thread) : bool := match t_pc th with PInCaller => true | _ => false end.
+
+Lemma disabled_thread : forall c t th, all_disabled c -> nth_error (threads c) t = Some th ->
+  step_thread fixed c t th = None.
+Proof.
+  intros c t th H Hth. specialize (H t). unfold enabled, step in H. rewrite Hth in H.
+  destruct (step_thread fixed c t th); [discriminate|reflexivity].
+Qed.
+
+(* If no thread can move, then either the application is holding a call inside the
+   PipelineCaller (gated and not released), or every unfinished thread is a Done/Struct waiter,
+   a ReleaseClients call or the result's owner waiting on a promise that nobody has asked to
+   resolve (caller still set; in particular no Fulfill/Reject is unfinished). *)
+Theorem no_stuck : forall ops c, reach fixed ops c -> all_disabled c ->
+  (exists t th, nth_error (threads c) t = Some th /\ t_pc th = PInCaller /\
+                op_gated (t_op th) = true /\ mem_nat t (gates c) = false) \/
+  (forall t th, nth_error (threads c) t = Some th -> t_pc th <> PDone ->
+     caller c = true /\ t_pc th = PStart /\ (t_op th = OWait \/ t_op th = ORelease \/ t_op th = OConsume)).
+Proof.
+  intros ops c Hr Hdis. destruct (reach_inv2 ops c Hr) as [HI H2].
+  pose proof (fun t th H => disabled_cases c t th HI H (disabled_thread c t th Hdis H)) as DC.
+  destruct (Z_lt_dec 0 (countT at_incaller (threads c))) as [Hpos|Hzero].
+  { left. destruct (countT_pos _ _ Hpos) as [t [th [Hth Hf]]]. exists t, th.
+    unfold at_incaller in Hf. destruct (t_pc th) eqn:Hpc; try discriminate.
+    destruct (DC t th Hth) as [D|[[D _]|[[_ [D1 D2]]|[[D _]|[[D _]|[x [rest [[D|D] _]]]]]]]]; try congruence. auto. }
+  right.
+  assert (NoIn : forall t th, nth_error (threads c) t = Some th -> t_pc th <> PInCaller).
+  { intros t th Hth Hpc. apply Hzero. apply (countT_mem _ _ _ _ Hth). unfold at_incaller. rewrite Hpc. reflexivity. }
+  (* A: nobody is inside the PipelineCaller *)
+  assert (A : ongoing c = 0).
+  { rewrite (J1 c H2). pose proof (countT_nonneg in_caller (threads c)) as Hnn.
+    destruct (Z_lt_dec 0 (countT in_caller (threads c))) as [Hp|]; [|lia]. exfalso.
+    destruct (countT_pos _ _ Hp) as [t [th [Hth Hf]]]. unfold in_caller in Hf.
+    destruct (t_pc th) eqn:Hpc; try discriminate; [exact (NoIn t th Hth Hpc)|].
+    destruct (DC t th Hth) as [D|[[D _]|[[D _]|[[D _]|[[D _]|[x [rest [[D|D] _]]]]]]]]; congruence. }
+  (* B: no Fulfill/Reject waits for callsStopped *)
+  assert (B : forall t th, nth_error (threads c) t = Some th -> t_pc th <> PStopWait).
+  { intros t th Hth Hpc.
+    destruct (DC t th Hth) as [D|[[D _]|[[D _]|[[D _]|[[_ [D1 D2]]|[x [rest [[D|D] _]]]]]]]]; try congruence.
+    pose proof (JA c H2 t th Hth D1 Hpc) as Hn. destruct (stopped c) eqn:Es; try congruence.
+    destruct (J2 c H2 Es) as [Ho _]. lia. }
+  (* C: pending resolution is impossible *)
+  assert (C : sig_open c = true -> caller c = true).
+  { intros Hs. destruct (caller c) eqn:Ec; auto. exfalso.
+    pose proof (J3 c H2) as H3. unfold N3 in H3. rewrite Ec, Hs in H3. simpl in H3.
+    destruct (countT_pos in_precommit (threads c) ltac:(lia)) as [t [th [Hth Hf]]].
+    unfold in_precommit in Hf. apply andb_true_iff in Hf. destruct Hf as [_ Hf].
+    destruct (t_pc th) eqn:Hpc; try discriminate; [exact (B t th Hth Hpc)|].
+    destruct (DC t th Hth) as [D|[[D _]|[[D _]|[[D _]|[[D _]|[x [rest [[D|D] _]]]]]]]]; congruence. }
+  (* D: nobody waits for a hook's done *)
+  assert (D : forall t th x rest, nth_error (threads c) t = Some th ->
+                (t_pc th = PFulWait x rest \/ t_pc th = PRelWait x rest) -> False).
+  { intros t th x rest Hth Hpc.
+    assert (Hfacts : px_done (get_px c x) = false /\ sig_open c = false).
+    { destruct (DC t th Hth) as [E|[[E _]|[[E _]|[[E _]|[[E _]|[x' [rest' [[E|E] E2]]]]]]]];
+        destruct Hpc as [Hpc|Hpc]; try congruence; rewrite Hpc in E; inversion E; subst; exact E2. }
+    destruct Hfacts as [Hdone Hsig].
+    assert (Hr0 : refs0 c x).
+    { pose proof (JT c H2 t th Hth) as [_ T]. destruct Hpc as [Hpc|Hpc]; rewrite Hpc in T; tauto. }
+    destruct Hr0 as [px [Hpx Hrefs]]. rewrite (get_px_nth c x px Hpx) in Hdone.
+    destruct (J5 c H2 x px Hpx) as [_ [_ Hd]].
+    destruct (J4 c H2) as [H4 _]. pose proof (H4 x px Hpx) as Hcalls.
+    pose proof (countT_nonneg (in_px_call x) (threads c)) as Hnn.
+    destruct (Z.eq_dec (px_calls px) 0) as [Hz|Hnz]; [rewrite (Hd Hrefs Hz) in Hdone; discriminate|].
+    destruct (countT_pos (in_px_call x) (threads c) ltac:(lia)) as [t1 [th1 [Hth1 Hf]]].
+    unfold in_px_call in Hf. destruct (t_op th1) eqn:Hop1; try discriminate.
+    destruct (t_via th1); try discriminate. apply andb_true_iff in Hf. destruct Hf as [_ Hf].
+    destruct (DC t1 th1 Hth1) as [E|[[E _]|[[E _]|[[E [[[p [s E2]] _]|[_ E2]]]|[[E _]|[x' [rest' [[E|E] _]]]]]]]];
+      try (rewrite E in Hf; discriminate); try congruence.
+    exact (NoIn t1 th1 Hth1 E). }
+  (* E: the signals are closed as soon as the result is known *)
+  assert (E : done_open c = true -> sig_open c = true).
+  { intros Hd. destruct (sig_open c) eqn:Es; auto. exfalso.
+    pose proof (J6 c H2) as H6. unfold N6 in H6. rewrite Es, Hd in H6. simpl in H6.
+    destruct (countT_pos in_postk (threads c) ltac:(lia)) as [t [th [Hth Hf]]].
+    unfold in_postk in Hf. apply andb_true_iff in Hf. destruct Hf as [_ Hf].
+    destruct (t_pc th) eqn:Hpc; try discriminate.
+    - destruct (DC t th Hth) as [F|[[F _]|[[F _]|[[F _]|[[F _]|[x [rest' [[F|F] _]]]]]]]]; congruence.
+    - exact (D t th x rest Hth (or_introl Hpc)).
+    - destruct (DC t th Hth) as [F|[[F _]|[[F _]|[[F _]|[[F _]|[x [rest' [[F|F] _]]]]]]]]; congruence. }
+  intros t th Hth Hnd.
+  destruct (DC t th Hth) as [F|[[F1 [F2 F3]]|[[F _]|[[F1 F2]|[[F _]|[x [rest [F _]]]]]]]].
+  - contradiction.
+  - repeat split; auto.
+  - exfalso. exact (NoIn t th Hth F).
+  - exfalso. pose proof (JT c H2 t th Hth) as [T _]. specialize (T F1).
+    destruct F2 as [[_ F2]|[_ F2]]; [specialize (E F2)|]; rewrite (C ltac:(assumption)) in T; discriminate.
+  - exfalso. exact (B t th Hth F).
+  - exfalso. exact (D t th x rest Hth F).
+Qed.
+
+(* ---------------------------------------------------------------- waiters *)
+
+(* When the system has come to rest, no call is held inside the PipelineCaller by the application,
+   and a Fulfill or Reject was among the operations, then every operation has finished: in
+   particular every Done/Struct waiter, ReleaseClients call and pipelined call was released. *)
+Theorem waiters_released : forall ops c, reach fixed ops c -> all_disabled c ->
+  (forall t th, nth_error (threads c) t = Some th -> t_pc th = PInCaller ->
+                op_gated (t_op th) = true -> mem_nat t (gates c) = true) ->
+  (exists t th, nth_error (threads c) t = Some th /\ is_res_op (t_op th) = true) ->
+  forall t th, nth_error (threads c) t = Some th -> t_pc th = PDone.
+Proof.
+  intros ops c Hr Hdis Hgate [t0 [th0 [Hth0 Hop0]]] t th Hth.
+  destruct (reach_inv2 ops c Hr) as [HI H2].
+  destruct (no_stuck ops c Hr Hdis) as [[t1 [th1 [H1 [P1 [G1 M1]]]]]|Hrest].
+  { rewrite (Hgate t1 th1 H1 P1 G1) in M1. discriminate. }
+  (* the resolver has finished, so caller is nil: nobody can be left *)
+  assert (Hcf : caller c = false).
+  { destruct (t_pc th0) eqn:Hpc0.
+    15:{ pose proof (I_threads c HI t0 th0 Hth0) as T. unfold tinv in T. rewrite Hpc0 in T.
+         destruct (t_op th0); try discriminate.
+         - destruct T as [[_ T]|[_ [T _]]]; auto.
+           pose proof (I_begin c HI) as Hb. destruct (caller c); auto. simpl in Hb.
+           exfalso. clear - T Hb. induction (events c) as [|e l IH]; [destruct T|].
+           rewrite cnt_cons in Hb. destruct T as [->|T]; simpl in Hb; [lia|]. apply IH; auto. destruct (is_begin e); simpl in Hb; lia.
+         - destruct T as [[_ T]|[_ [T _]]]; auto.
+           pose proof (I_begin c HI) as Hb. destruct (caller c); auto. simpl in Hb.
+           exfalso. clear - T Hb. induction (events c) as [|e l IH]; [destruct T|].
+           rewrite cnt_cons in Hb. destruct T as [->|T]; simpl in Hb; [lia|]. apply IH; auto. destruct (is_begin e); simpl in Hb; lia. }
+    all: assert (Hnd : t_pc th0 <> PDone) by congruence;
+         destruct (Hrest t0 th0 Hth0 Hnd) as [_ [_ [E|[E|E]]]]; rewrite E in Hop0; discriminate. }
+  destruct (t_pc th) eqn:Hpc; auto;
+    assert (Hnd : t_pc th <> PDone) by congruence;
+    destruct (Hrest t th Hth Hnd) as [Hc _]; congruence.
+Qed.
+
+(* ---------------------------------------------------------------- lifetime of the result *)
+
+(* resolve reads the result (res.client(t) in the loop over the proxy clients) only while the
+   resolution has not been signalled, hence before the owner of the result may release it *)
+Theorem result_read_alive : forall ops c t th x rest, reach fixed ops c ->
+  nth_error (threads c) t = Some th -> t_pc th = PFul (x :: rest) ->
+  done_open c = true /\ res_alive c = true.
+Proof.
+  intros ops c t th x rest Hr Hth Hpc. destruct (reach_inv2 ops c Hr) as [HI H2].
+  pose proof (I_threads c HI t th Hth) as T. unfold tinv in T. rewrite Hpc in T.
+  assert (Hd : done_open c = true) by (destruct (t_op th); tauto).
+  split; [exact Hd|exact (JL c H2 Hd)].
+Qed.
+
+(* refuted on the withdrawn repair (signals closed before the proxies are fulfilled): the owner
+   releases the result between Done and resolve's read of it *)
+Definition lifetime_history : list op := [OClient [0] 0; OFulfill [([0], 1)] []; OConsume].
+
+Example result_lifetime_refuted :
+  let c := run late_fixed (init lifetime_history) [0%nat; 1%nat; 2%nat; 1%nat] in
+  match nth_error (threads c) 1 with
+  | Some th => t_pc th = PDone /\ t_out th = OPanic /\ res_alive c = false
+  | None => False
+  end.
+Proof. vm_compute. repeat split; reflexivity. Qed.
+
+Example lifetime_history_fixed :
+  let c := run fixed (init lifetime_history) [0%nat; 1%nat; 2%nat; 1%nat; 1%nat; 1%nat; 1%nat; 2%nat] in
+  forallb (finished c) (seq 0 3) = true /\
+  match nth_error (threads c) 1 with Some th => t_out th = ORet | None => False end.
+Proof. vm_compute. repeat split; reflexivity. Qed.
